@@ -148,7 +148,8 @@ Inductive modarg :=
 | Delegated                                 (* add_typing_imports_for_type: modules chosen by the sites in that function *)
 | Rendered                                  (* the statement printers of ImportCollector / render_imports *)
 | InDocstring                               (* template line that lands inside a docstring of the emitted file *)
-| Computed (audited : bool).
+| Computed (audited : bool)
+| Unreachable.                              (* the call sits in a module outside the static import closure of the generator's entry points *)
 
 Record site := mkSite { s_file : str; s_line : N; s_arg : modarg }.
 Definition mkTpl := mkSite.
